@@ -40,6 +40,8 @@ class SysInterp(Interp):
         self.bal_class = {}     # process -> 'ok' | 'bad' | 'nan'
         self.flow_class = {}    # flow leaf name -> 'ok' | 'neg' | 'nan'
         self.undecided = []
+        self.stale = set()      # leaf names of value arrays that have been replaced since (history cases)
+        self.stale_used = []    # tolerances that were built from replaced values
 
     # ---- np.finfo(...).eps
     def np_attr(self, name, node):
@@ -63,9 +65,13 @@ class SysInterp(Interp):
         def rec(x):
             if not isinstance(x, tuple):
                 return
+            matched = False
             for p, bt in self.bal_terms.items():
                 if x == bt and bt[0] != "k":
                     hits.add(("bal", p))
+                    matched = True
+            if matched:
+                return          # the flows inside a balance are not subjects of their own
             if x and x[0] == "in" and x[1] in self.flow_class:
                 hits.add(("flow", x[1]))
             for y in x:
@@ -89,6 +95,11 @@ class SysInterp(Interp):
                 return any(self.cls_of(s) == "nan" for s in sub)
             if name in ("lt", "le", "gt", "ge", "eq", "ne"):
                 a, b = args
+                for side in (a, b):
+                    if self.stale and self.is_tolerance(side):
+                        old = sorted(n for n in self.leaf_names(side) if n in self.stale)
+                        if old:
+                            self.stale_used.append(old)
                 sa = set() if self.is_tolerance(a) else self.subject(a)
                 sb = set() if self.is_tolerance(b) else self.subject(b)
                 if sa and not sb:
@@ -104,6 +115,19 @@ class SysInterp(Interp):
                         return {"lt": False, "le": False, "gt": True, "ge": True, "eq": False, "ne": True}[name]
                 return None
         return None
+
+    @staticmethod
+    def leaf_names(t):
+        out = set()
+
+        def rec(x):
+            if isinstance(x, tuple):
+                if x[:1] == ("in",):
+                    out.add(x[1])
+                for y in x:
+                    rec(y)
+        rec(t)
+        return out
 
     @staticmethod
     def is_tolerance(t):
@@ -378,6 +402,82 @@ def verdict_case(prog, rep, fails, gi, graph, assign, raise_error, tol):
         note(fails, rid, "MFASystem.check_mass_balance", inp, msg)
 
 
+def history_worker(prog, rep, job):
+    gi, second = job
+    fails = {}
+    history_case(prog, rep, fails, gi, GRAPHS[gi], second)
+    return fails
+
+
+def history_case(prog, rep, fails, gi, graph, second):
+    """one system object, checked, its values replaced (flow.values = ..., stock arrays likewise), checked again: the second
+    verdict must be the verdict for the values present then, with the default tolerance built from those values"""
+    rid = "C02.verdict-follows-current-values"
+    w = World(prog)
+    it = SysInterp(prog)
+    w.it = it
+    mfa, leafs = build_system(w, graph)
+    kind0, bal0 = run_guarded(lambda: balances_of(it, mfa))
+    if kind0 != "ok" or not isinstance(bal0, dict):
+        return
+    it.bal_terms = {p: b.f["values"].term for p, b in bal0.items() if isinstance(b, Obj) and isinstance(b.f.get("values"), AArr)}
+    it.bal_class = {p: "ok" for p in graph[0]}
+    fnames = [n for n in leafs if isinstance(leafs[n][0], str)]
+    it.flow_class = {leafs[n][0]: "ok" for n in fnames}
+    for call in ("check_mass_balance", "check_flows", "check_mass_balance"):
+        k1, r1 = run_guarded(lambda: it.call_method(mfa, call))
+        if k1 != "ok":
+            return      # the first-check verdict is the business of the other rules
+    # every value array is replaced by one with new content
+    arrays = list(it.get_attr(mfa, "flows").values())
+    for st in it.get_attr(mfa, "stocks").values():
+        arrays += [it.get_attr(st, c) for c in ("stock", "inflow", "outflow")]
+    renamed = {}
+    for a in arrays:
+        v = a.f["values"]
+        old = next(iter(SysInterp.leaf_names(v.term)), None)
+        if old is None:
+            continue
+        new = NP.leaf(old + "'", [tuple(ax) for ax in v.axes])
+        renamed[old] = old + "'"
+        it.set_attr(a, "values", new, None)
+    it.stale = set(renamed)
+    kind0, bal0 = run_guarded(lambda: balances_of(it, mfa))
+    if kind0 != "ok" or not isinstance(bal0, dict):
+        return
+    it.bal_terms = {p: b.f["values"].term for p, b in bal0.items() if isinstance(b, Obj) and isinstance(b.f.get("values"), AArr)}
+    live = [p for p, t in it.bal_terms.items() if t[0] != "k"]
+    it.bal_class = {p: "ok" for p in graph[0]}
+    if second == "bad" and live:
+        it.bal_class[live[0]] = "bad"
+    it.flow_class = {leafs[n][0] + "'": "ok" for n in fnames}
+    if second == "neg" and fnames:
+        it.flow_class[leafs[fnames[0]][0] + "'"] = "neg"
+    it.stale_used.clear()
+    it.log.clear()
+    inp = {"processes": graph[0], "flows": [list(f) for f in graph[1]], "stocks": [list(s) for s in graph[2]],
+           "history": "check_mass_balance(); check_flows(); every flow / stock array gets new values; second check", "second_state": second}
+    if second == "neg":
+        kind, r = run_guarded(lambda: it.call_method(mfa, "check_flows", raise_error=True))
+        want_raise = "neg" in it.flow_class.values()
+        what = "check_flows"
+    else:
+        kind, r = run_guarded(lambda: it.call_method(mfa, "check_mass_balance", raise_error=True))
+        want_raise = "bad" in it.bal_class.values()
+        what = "check_mass_balance"
+    rep.evaluations += 1
+    ok, msg = True, ""
+    if it.stale_used:
+        ok, msg = False, f"the second {what} compares against a tolerance built from values that have been replaced since ({', '.join(it.stale_used[0])}): the tolerance is not scaled to the present magnitudes"
+    elif want_raise and kind != "raise":
+        ok, msg = False, f"second {what}: the present values violate the check ({second}), but it ended with {kind}"
+    elif not want_raise and kind != "ok":
+        ok, msg = False, f"second {what}: the present values are fine, but it ended with {kind} {getattr(r, 'msg', '')[:120]}"
+    rep.oblige(rid, ok, where=f"MFASystem.{what}", what=str(inp), distinct=(rid, gi, second))
+    if not ok:
+        note(fails, rid, f"MFASystem.{what}", inp, msg)
+
+
 EXC_PATTERNS = ["none", "flow-name", "process-name", "substring-of-a-name", "unrelated"]
 
 
@@ -462,6 +562,12 @@ def run(prog, rep):
         allp = [a + ("ok",) * (n - len(a)) for a in allp]
         for chunk in [allp[i::4] for i in range(4)]:
             jobs.append((gi, chunk, "flows"))
+    rep.rule("C02.verdict-follows-current-values", "on one system object checked, refilled and checked again, the second verdict and the default tolerance are those of the present values")
+    hjobs = [(gi, second) for gi in range(len(GRAPHS)) for second in ("ok", "bad", "neg")]
+    for part in pmap(history_worker, hjobs, prog, rep):
+        for k, (count, inp, msg) in part.items():
+            c = fails.get(k)
+            fails[k] = (c[0] + count, c[1], c[2]) if c else (count, inp, msg)
     for part in pmap(verdict_worker, jobs, prog, rep):
         for k, (count, inp, msg) in part.items():
             c = fails.get(k)
@@ -472,6 +578,7 @@ def run(prog, rep):
     rep.rules["C02.balance-contributions"]["floor"] = 20
     rep.rules["C02.balance-verdict"]["floor"] = 200
     rep.rules["C02.check-flows"]["floor"] = 200
+    rep.rules["C02.verdict-follows-current-values"]["floor"] = 12
     rep.exhaustive = True
     rep.assumptions += ASSUMPTIONS + [
         "every ordered comparison with NaN is False, != is True; max()/min() of an empty iterable raise; sum([]) is the int 0",
@@ -481,6 +588,7 @@ def run(prog, rep):
 
 
 MUTANTS = [
+    {"name": "tolerance-cached-on-first-check", "path": MOD, "find": "    @property\n    def _absolute_float_precision(self)", "replace": "    from functools import cached_property\n\n    @cached_property\n    def _absolute_float_precision(self)"},
     {"name": "D6-nan-reported-as-success", "path": MOD, "find": "if not e <= tolerance}", "replace": "if e > tolerance}"},
     {"name": "D7-max-over-empty-stocks", "path": MOD, "find": "for s in self.stocks.values()], default=0.0)", "replace": "for s in self.stocks.values()])"},
     {"name": "D8-sum-of-empty-contributions", "path": MOD, "find": "p_name: sum(parts) if parts else FlodymArray.scalar(0.0)", "replace": "p_name: sum(parts)"},
